@@ -663,6 +663,8 @@ def c09_race(h, op, ent, k):
     if info is None:
         return
     a, b = op['first'], op['second']
+    if a.get('op') not in REQUEST_OPS or b.get('op') not in REQUEST_OPS:
+        return          # overlapping driver / worker messages: judged by c04, c05, c06, c10, c39 on the flattened history
     ra, rb = info['first'], info['second']
     kind = f"{a.get('op')}-vs-{b.get('op')}"
     if a == b:
